@@ -1222,6 +1222,92 @@ static void scn_xjoin(void)
     }
 }
 
+/* ======================================================================= resume_yield_to on shared pools (C02, C11)
+ * Pairs (A, B) in pools that several streams serve: B suspends; A, once it sees
+ * B BLOCKED, calls ABT_self_resume_yield_to(B).  A is pushed back to a pool that
+ * another stream serves while the first stream is still inside the switch, so A
+ * may be popped, resumed and run on -- overwriting the part of its stack that the
+ * switch was using -- before the first stream has finished with it.  The caller
+ * is held back inside the call (abtv_stall_within) to open that window. */
+typedef struct {
+    int id, peer;
+    ABT_thread th;
+    volatile int susp;
+} ry_t;
+static ry_t RY[9];
+static void __attribute__((noinline)) scribble(int depth)
+{
+    /* reuse the stack below the caller */
+    volatile char buf[2048];
+    for (unsigned i = 0; i < sizeof buf; i++)
+        buf[i] = (char)0xEE;
+    if (depth > 0)
+        scribble(depth - 1);
+    (void)buf[0];
+}
+static void ry_b(void *arg)
+{
+    ry_t *me = (ry_t *)arg;
+    int rank = -1, fl = 0;
+    ABT_xstream_self_rank(&rank);
+    EV("\"e\":\"Start\",\"u\":%d,\"arg\":%d,\"es\":%d,\"n\":1", me->id, me->id * 10, rank);
+    EV("\"e\":\"Suspend\",\"u\":%d", me->id);
+    me->susp = 1;
+    CHK(ccall_q(me->id, &(prim_t){ .kind = PK_SUSPEND }, &fl));
+    EV("\"e\":\"Resumed\",\"u\":%d", me->id);
+    ctx_log(me->id, PK_SUSPEND, fl);
+    scribble(3);
+    EV("\"e\":\"Finish\",\"u\":%d", me->id);
+}
+static void ry_a(void *arg)
+{
+    ry_t *me = (ry_t *)arg;
+    ry_t *b = &RY[me->peer];
+    int rank = -1, fl = 0;
+    ABT_xstream_self_rank(&rank);
+    EV("\"e\":\"Start\",\"u\":%d,\"arg\":%d,\"es\":%d,\"n\":1", me->id, me->id * 10, rank);
+    while (!b->susp || state_of(b->th) != 2) {
+        EV("\"e\":\"Yield\",\"u\":%d", me->id);
+        CHK(ABT_thread_yield());
+        EV("\"e\":\"Back\",\"u\":%d", me->id);
+        abtv_idle_hint();
+    }
+    EV("\"e\":\"ResumeCall\",\"by\":%d,\"u\":%d", me->id, b->id);
+    EV("\"e\":\"Yield\",\"u\":%d", me->id);
+    if (rnd(4))
+        abtv_stall_within(60, 100 + rnd(3000));
+    CHK(ccall_q(me->id, &(prim_t){ .kind = PK_RESUME_YIELD_TO, .th = b->th }, &fl));
+    EV("\"e\":\"Back\",\"u\":%d", me->id);
+    EV("\"e\":\"ResumeRet\",\"by\":%d,\"u\":%d", me->id, b->id);
+    ctx_log(me->id, PK_RESUME_YIELD_TO, fl);
+    scribble(3);
+    EV("\"e\":\"Finish\",\"u\":%d", me->id);
+}
+static void scn_ryt(void)
+{
+    memset(RY, 0, sizeof RY);
+    int np = 1 + rnd(3);
+    EV("\"e\":\"Exec\",\"nu\":%d,\"nes\":%d,\"cfg\":%d,\"ext\":0", 2 * np, g_nes, g_cfg);
+    for (int i = 0; i < np; i++) {
+        ry_t *a = &RY[2 * i + 1], *b = &RY[2 * i + 2];
+        a->id = 2 * i + 1;
+        b->id = 2 * i + 2;
+        a->peer = b->id;
+        b->peer = a->id;
+        EV("\"e\":\"Create\",\"by\":0,\"u\":%d,\"kind\":0,\"named\":1,\"arg\":%d,\"pool\":1", b->id, b->id * 10);
+        CHK(ABT_thread_create(g_pool[1 + rnd(g_nes - 1)][0], ry_b, b, ABT_THREAD_ATTR_NULL, &b->th));
+        EV("\"e\":\"CreateRet\",\"by\":0,\"u\":%d", b->id);
+        EV("\"e\":\"Create\",\"by\":0,\"u\":%d,\"kind\":0,\"named\":1,\"arg\":%d,\"pool\":1", a->id, a->id * 10);
+        CHK(ABT_thread_create(g_pool[1 + rnd(g_nes - 1)][0], ry_a, a, ABT_THREAD_ATTR_NULL, &a->th));
+        EV("\"e\":\"CreateRet\",\"by\":0,\"u\":%d", a->id);
+    }
+    for (int i = 1; i <= 2 * np; i++) {
+        EV("\"e\":\"FreeCall\",\"by\":0,\"u\":%d", i);
+        CHK(ABT_thread_free(&RY[i].th));
+        EV("\"e\":\"FreeRet\",\"by\":0,\"u\":%d,\"null\":%d,\"tok\":%d", i, RY[i].th == ABT_THREAD_NULL, i * 10);
+    }
+}
+
 /* ======================================================================= cancel before the first run (C12, C03)
  * A named ULT is created (or revived) into a pool that no scheduler serves,
  * so it has never been scheduled; a joiner blocks on it; it is cancelled and
@@ -1618,9 +1704,11 @@ static void scenario(const char *name, uint64_t seed)
     CHK(ABT_init(0, NULL));
     setup_streams();
     if (!strcmp(name, "migrate") || !strcmp(name, "migrace") || !strcmp(name, "switch") || !strcmp(name, "xjoin") ||
-        !strcmp(name, "cancelnew") || !strcmp(name, "cancelmix")) {
+        !strcmp(name, "cancelnew") || !strcmp(name, "cancelmix") || !strcmp(name, "ryt")) {
         if (!strcmp(name, "migrace"))
             scn_migrace();
+        else if (!strcmp(name, "ryt"))
+            scn_ryt();
         else if (!strcmp(name, "xjoin"))
             scn_xjoin();
         else if (!strcmp(name, "cancelnew"))
